@@ -203,8 +203,25 @@ def run_a(case, ctx):
     ctx.count("A.interpolation_checked")
     ctx.evals(o.size)
     ctx.nontrivial("A", name, ste, way, tuple(case["factors"][:step_i + 1]))
-    if (np.abs(o - ref) > tol).any():
-      i = int(np.argmax(np.abs(o - ref) - tol))
+    bad = np.abs(o - ref) > tol
+    if bad.any() and way == "traced_variable":
+      # a data-dependent scale computed inside the traced graph may differ in the last bit from the eager one and
+      # flip a rounding tie: where the traced function's own f=1 output differs from the eager one (and from its own
+      # f=0 output, i.e. the factor does reach the graph), the traced pair (u2, v2) is the reference
+      try:
+        q.update_qnoise_factor(1.0)
+        v2 = np.asarray(state["fn"](tf.constant(x))).astype(np.float64)
+        q.update_qnoise_factor(0.0)
+        u2 = np.asarray(state["fn"](tf.constant(x))).astype(np.float64)
+        q.update_qnoise_factor(f)
+        alt = (np.abs(o - (u2 + f * (v2 - u2))) <= tol) & (np.abs(v2 - v) > tol) & (np.abs(v2 - u2) > tol)
+        if alt[bad].all():
+          ctx.skip("A.rounding_tie_flipped_between_eager_and_traced_scale", int(bad.sum()))
+          bad = np.zeros_like(bad)
+      except Exception:      # pylint: disable=broad-except
+        pass
+    if bad.any():
+      i = int(np.argmax(np.where(bad, np.abs(o - ref) - tol, -np.inf)))
       ctx.violation(dict(base, kind="not_the_interpolation", which=("first" if step_i == 0 else "after_update")),
                     "f=%r x=%r: got %r, u+f*(v-u)=%r (u=%r v=%r)" % (f, float(x.flat[i]), float(o.flat[i]), float(ref.flat[i]), float(u.flat[i]), float(v.flat[i])),
                     {"factors": case["factors"], "step": step_i})
